@@ -259,6 +259,8 @@ impl Prop for C04 {
     fn rule(&self) -> String { format!("{}; sink accepts 1..3 bytes per write so that every write call is logged with the source position; oracle: released bytes are a whole-chunk prefix of the authentic plaintext, no write of chunk i before record i is fully consumed, success only with complete output; plus the real binary (both modes, -o and stdout) on intact, trailing-byte, corrupted, truncated and flag-cleared two-chunk files: exit 0 only with the complete plaintext released", RULE) }
     fn cases(&self, tier: &str, seed: u64) -> Vec<Case> { let mut v = tamper_cases(tier, seed ^ 4); v.extend(c04_cli_cases(tier, seed));
         // decryption whose output cannot be delivered (full device, reader gone): an error on the write side is never reported as success
-        v.extend(crate::props::c10::C10.cases(tier, seed ^ 0x04).into_iter().filter(|c| get(c, "op") == "cli-devfull" && get(c, "cmd").ends_with("decrypt"))); v }
-    fn run(&self, c: &Case, m: &mut Model) -> Outcome { if get(c, "op") == "cli-devfull" { crate::props::c10::C10.run(c, m) } else if get(c, "kind") == "cli" { run_c04_cli(c, m) } else { run_tamper(c, m, true) } }
+        v.extend(crate::props::c10::C10.cases(tier, seed ^ 0x04).into_iter().filter(|c| get(c, "op") == "cli-devfull" && get(c, "cmd").ends_with("decrypt")));
+        // an authentic file followed by one more byte, with the probe for the end of the stream interrupted / failing at every read: nothing may be reported as a success
+        v.extend(crate::props::c10::C10.cases(tier, seed ^ 0x04).into_iter().filter(|c| get(c, "ext") == "1")); v }
+    fn run(&self, c: &Case, m: &mut Model) -> Outcome { if get(c, "op") == "cli-devfull" || get(c, "ext") == "1" { crate::props::c10::C10.run(c, m) } else if get(c, "kind") == "cli" { run_c04_cli(c, m) } else { run_tamper(c, m, true) } }
 }
